@@ -130,7 +130,11 @@ let fnv64 (l : z list) : string =
   List.iter (fun b -> h := Int64.mul (Int64.logxor !h (Int64.of_int (int_of_z b))) 0x100000001b3L) l;
   Printf.sprintf "%016Lx" !h
 
-let chunk_size = z_of_int 262144
+(* chunk sizes regenerated from /repo (Gen/Consts.v): the search's literal
+   flushes and the whole-file path of sendFile *)
+let chunk_size = c_chunkSize
+let chunk_for (sums : 'a list) (target : 'b list) =
+  if sums = [] || target = [] then c_sendFile_chunkSize else c_chunkSize
 
 let parse_head (s : string) : sum_head =
   match List.map z_of_string (split ',' s) with
@@ -157,7 +161,8 @@ let run_sender fields = match fields with
     let sums = List.map (fun s -> match split ':' s with
       | [s1; s2] -> (z_of_string s1, bytes_of_hex s2)
       | _ -> failwith "bad sum") (split ';' sums) in
-    (match send_one h_native (z_of_string seed) chunk_size h sums (bytes_of_hex target) with
+    let target = bytes_of_hex target in
+    (match send_one h_native (z_of_string seed) (chunk_for sums target) h sums target with
      | SOk (h', toks, trailer) ->
        Printf.sprintf "H:%s|T:%s|S:%s" (string_of_head h') (string_of_tokens toks)
          (String.concat "" (List.map (fun b -> Printf.sprintf "%02x" (int_of_z b)) trailer))
